@@ -30,6 +30,9 @@ var c20DBs = []int{0, 1, 2, 9, 10, 15, 123}
 
 func genC20(r *Rng, tier string, idx int) *Plan {
 	p := &Plan{Profile: "mem", Knobs: map[string]int64{}, SKnobs: map[string]string{}}
+	if idx%9 == 4 {
+		return genC20Evict(r, tier, p)
+	}
 	if idx%3 == 0 {
 		// connections in different databases issuing SELECT/SWAPDB/FLUSH*/data commands concurrently (dice-scheduled
 		// at keyspace, store-lock and connection-table-lock granularity): replies and the per-database dataset
@@ -85,6 +88,9 @@ func perDB(st map[int]map[string]string) map[int]string {
 func runC20(t *testing.T, p *Plan) *Outcome {
 	if p.Profile == "conn" {
 		return runConcCore(t, p, "C20")
+	}
+	if p.Profile == "evict" {
+		return runC20Evict(t, p)
 	}
 	o := &Outcome{Trivial: true}
 	var names []string
